@@ -110,7 +110,7 @@ Proof. vm_compute. reflexivity. Qed.
    Both directions of a structure with a descriptor LIST, over the REGENERATED bodies of builder and decoder (Gen/PyFuncs.v) under the
    semantics of the small Python (Model/Py.v): GET LBA STATUS, any number of descriptors. *)
 From Coq Require Import ZArith List.
-From PS Require Import Model.Py Proofs.PyParsers Proofs.PyTotal Proofs.PyRoundTrip Proofs.PyRoundTrip2 Proofs.PyRoundTrip3 Proofs.PyBuilders Proofs.PyRoundTrip4 Gen.PyFuncs.
+From PS Require Import Model.Py Proofs.PyParsers Proofs.PyTotal Proofs.PyRoundTrip Proofs.PyRoundTrip2 Proofs.PyRoundTrip3 Proofs.PyBuilders Proofs.PyRoundTrip4 Proofs.PyRoundTrip5 Gen.PyFuncs.
 Import ListNotations.
 
 (* the builder: header whose PARAMETER DATA LENGTH counts what follows it, then one 16-byte descriptor per dictionary, in order *)
@@ -227,3 +227,31 @@ Theorem C06_py_transport_id_sas_round_trip : forall (name : bytes) f, length nam
   exists built, call_fun all_tables py_program f MTI [tid_dict 6 "sas_address" name] = Ok (PBytes built) /\ length built = 24%nat /\
     tid_decodes built (tid_dict 6 "sas_address" name).
 Proof. exact transport_id_sas_round_trip. Qed.
+
+(* ... and the other three fixed 24-byte kinds: SBP (EUI-64 NAME, bytes 8..15), SRP (INITIATOR PORT IDENTIFIER, 16 bytes at 8..23) and
+   SOP (ROUTING ID, bytes 4..11) — with them every TransportID kind of fixed size round-trips, for every name *)
+Theorem C06_py_transport_id_sbp_srp_sop_round_trip : forall (n8 n16 : bytes) f, length n8 = 8%nat -> length n16 = 16%nat -> (1 <= f)%nat ->
+  (exists built, call_fun all_tables py_program f MTI [tid_dict 3 "eui64_name" n8] = Ok (PBytes built) /\ length built = 24%nat /\
+     tid_decodes built (tid_dict 3 "eui64_name" n8)) /\
+  (exists built, call_fun all_tables py_program f MTI [tid_dict 4 "initiator_port_identifier" n16] = Ok (PBytes built) /\ length built = 24%nat /\
+     tid_decodes built (tid_dict 4 "initiator_port_identifier" n16)) /\
+  (exists built, call_fun all_tables py_program f MTI [tid_dict 10 "routing_id" n8] = Ok (PBytes built) /\ length built = 24%nat /\
+     tid_decodes built (tid_dict 10 "routing_id" n8)).
+Proof.
+  intros n8 n16 f H8 H16 Hf. split; [|split].
+  - exact (transport_id_sbp_round_trip n8 f H8 Hf).
+  - exact (transport_id_srp_round_trip n16 f H16 Hf).
+  - exact (transport_id_sop_round_trip n8 f H8 Hf).
+Qed.
+
+(* the iSCSI TransportID (TPID format 00b): for every ASCII name that does not end in a NUL character, the decoder reports protocol 5,
+   format 0 and exactly that name, whatever follows the TransportID in the buffer (the padding NULs are stripped, the name is not cut) *)
+Theorem C06_py_iscsi_transport_id_round_trip : forall (s : String.string) (name : bytes) f,
+  bytes_of_string s = Some name -> rstrip_nul name = name -> (Z.of_nat (length name) <= 65000)%Z -> (2 <= f)%nat ->
+  exists built, call_fun all_tables py_program f MTI [PDict [("protocol_id", PInt 5); ("iscsi_name", PStr s)]] = Ok (PBytes built) /\
+    forall rest, call_with py_program (run all_tables py_program f) UTID [PBytes (built ++ rest)%list] =
+      Ok (PDict [("tpid_format", PInt 0); ("protocol_id", PInt 5); ("iscsi_name", PStr s)]).
+Proof. exact iscsi_tid0_round_trip. Qed.
+
+Example C06_py_iscsi_name_ok : exists name, bytes_of_string "iqn.1993-08.org.debian:01:90c27cf89279" = Some name /\ rstrip_nul name = name.
+Proof. eexists. split; reflexivity. Qed.
